@@ -25,6 +25,28 @@ fn member_of_own_conf(w: &World, i: usize) -> bool {
     }
 }
 
+fn running_set(w: &World, stopped: &BTreeSet<usize>) -> BTreeSet<u64> {
+    (0..w.n()).filter(|i| w.live(*i).is_some() && !stopped.contains(i)).map(|i| i as u64 + 1).collect()
+}
+
+fn active_conf(w: &World, j: usize) -> RefConf {
+    RefConf::from_cs(&w.live(j).unwrap().rn.raft.prs().conf().to_conf_state())
+}
+
+/// Node i is still needed: some other running node's own active configuration has a running
+/// majority with i and none without it.
+fn needed(w: &World, stopped: &BTreeSet<usize>, i: usize) -> bool {
+    let with = running_set(w, stopped);
+    let mut without = with.clone();
+    without.remove(&(i as u64 + 1));
+    (0..w.n()).any(|j| {
+        j != i && w.live(j).is_some() && !stopped.contains(&j) && {
+            let c = active_conf(w, j);
+            c.is_quorum(&with) && !c.is_quorum(&without)
+        }
+    })
+}
+
 /// the configuration in force: the reference configuration at the highest registered index
 fn conf_in_force(w: &World) -> RefConf {
     let (_, cs) = w.ghost.conf_at.iter().next_back().unwrap();
@@ -50,6 +72,7 @@ fn suffix(w0: &World, slow_snap: bool, ctx: &mut Ctx) -> Outcome {
     }
     let force = conf_in_force(&w);
     let mut stopped: BTreeSet<usize> = BTreeSet::new();
+    let mut rule_stopped: BTreeSet<usize> = BTreeSet::new();
     // 1. restart crashed nodes; decide who is shut down for good
     for i in 0..n {
         let created = w.nodes[i].created;
@@ -66,6 +89,42 @@ fn suffix(w0: &World, slow_snap: bool, ctx: &mut Ctx) -> Outcome {
         let pvcq = w.cfg(i).pre_vote && w.cfg(i).check_quorum;
         if !member_of_own_conf(&w, i) || (!force.members().contains(&id) && !pvcq) {
             stopped.insert(i);
+            rule_stopped.insert(i);
+        }
+    }
+    // A removed node is shut down only once the others can do without it: while a running
+    // node's own configuration (it has not learnt of the removal yet) has no running
+    // majority, the removed voters it lists keep running. (The statement presupposes "a
+    // majority of each voter set running"; an application that destroys a removed peer
+    // before its successors know the removal is committed breaks that itself.)
+    loop {
+        let running = running_set(&w, &stopped);
+        let mut changed = false;
+        for j in 0..n {
+            if stopped.contains(&j) || w.live(j).is_none() {
+                continue;
+            }
+            let conf = active_conf(&w, j);
+            if conf.is_quorum(&running) {
+                continue;
+            }
+            let back: Vec<usize> = rule_stopped
+                .iter()
+                .cloned()
+                .filter(|k| stopped.contains(k) && (conf.voters.contains(&(*k as u64 + 1)) || conf.outgoing.contains(&(*k as u64 + 1))))
+                .collect();
+            let mut with = running.clone();
+            with.extend(back.iter().map(|k| *k as u64 + 1));
+            if !back.is_empty() && conf.is_quorum(&with) {
+                for k in back {
+                    stopped.remove(&k);
+                }
+                changed = true;
+                break;
+            }
+        }
+        if !changed {
+            break;
         }
     }
     for i in &stopped {
@@ -111,8 +170,14 @@ fn suffix(w0: &World, slow_snap: bool, ctx: &mut Ctx) -> Outcome {
             return false;
         }
         // a node that has applied its own removal is shut down by the application
+        // (once the others can do without it, see above)
         for i in 0..w.n() {
-            if w.live(i).is_some() && !member_of_own_conf(w, i) {
+            let id = i as u64 + 1;
+            let pvcq = w.cfg(i).pre_vote && w.cfg(i).check_quorum;
+            // same rule as at the start of the suffix: the operator also stops a node that the
+            // configuration in force (it may have changed during the suffix) no longer lists
+            let gone = !member_of_own_conf(w, i) || (!conf_in_force(w).members().contains(&id) && !pvcq);
+            if w.live(i).is_some() && gone && !needed(w, stopped, i) {
                 stopped.insert(i);
                 w.crash(i, usize::MAX, ctx);
             }
